@@ -54,8 +54,10 @@ Print Assumptions C11_nesting_order_partial.
 Theorem C11_children_inside_parent : forall lo hi l i, seqb lo hi l -> In i l ->
   pos_le lo (root_start i) /\ pos_le (root_start i) (root_end i) /\ pos_le (root_end i) hi.
 Proof. exact seqb_inside. Qed.
+Print Assumptions C11_children_inside_parent.
 Theorem C11_siblings_in_order : forall lo hi l1 x y l2, seqb lo hi (l1 ++ x :: y :: l2) -> pos_le (root_end x) (root_start y).
 Proof. exact seqb_adjacent. Qed.
+Print Assumptions C11_siblings_in_order.
 
 (* on every call, not only the entry point *)
 Theorem C11_nesting_every_call_partial : forall W ro alpha fast std_parse fuel s, inv W (rd s) ->
